@@ -103,7 +103,7 @@ def run_args(case):
                     return 'overwrite', '%s_get wrote outside the pointer array / string buffer' % which
                 off = buf
                 for i, v in enumerate(vec):
-                    p = struct.unpack('<I', raw_p[8 + 4 * i:12 + 4 * i])[0]
+                    p = struct.unpack(ag.E + 'I', raw_p[8 + 4 * i:12 + 4 * i])[0]
                     if p != off:
                         return 'pointer', '%s_get: pointer %d is 0x%x, expected 0x%x' % (which, i, p, off)
                     got = raw_b[8 + off - buf:8 + off - buf + len(v) + 1]
